@@ -164,7 +164,11 @@ func (s *SelectStatement) ToStreamConfig() (*types.Config, string, error) {
 				if err != nil {
 					return nil, "", err
 				}
-				if n != "" && !isScalarFunctionItem(fieldName) {
+				if n != "" && isSingleStringLiteral(strings.TrimSpace(fieldName)) {
+					// A string literal is called by its content; written as literal:name like an
+					// aliased item, so a ':' inside the content ('x:y') is not taken for the separator
+					simpleFields = append(simpleFields, strings.TrimSpace(fieldName)+":"+n)
+				} else if n != "" && !isScalarFunctionItem(fieldName) {
 					// If string literal, use parsed field name (remove quotes)
 					simpleFields = append(simpleFields, n)
 				} else {
